@@ -3,7 +3,7 @@
      ExceptionInfo.from_exc_info / get_formatted / get_formatted_exception_only,
      Callpoint.tb_frame_str, TracebackInfo.get_formatted, _DeferredLine.__str__,
      format_exception_only / _format_final_exc_line / print_exception
-   (after the fix: commits for the empty message and __qualname__).
+   (after the fix: commits for the empty message, __qualname__, module prefix and recursion folding).
    Definitions only.  Frame walking (tb_next, f_code, linecache) is CPython's and is
    input data here. *)
 From Boltons Require Import Lib.Prelude Lib.C16_Text.
@@ -217,9 +217,31 @@ Section Model.
     (if is_nil (deferred_str (cp_raw c)) then []
      else M_ind4 ++ strip C (deferred_str (cp_raw c)) ++ M_nl).
 
+  (* _repeated_str(count):  '  [Previous line repeated N more time(s)]' + LF  when count > 3 *)
+  Definition M_prev1 : str :=
+    [32;32;91;80;114;101;118;105;111;117;115;32;108;105;110;101;32;114;101;112;101;97;116;101;100;32].
+  Definition M_prev2 : str := [32;109;111;114;101;32;116;105;109;101].
+  Definition repeated_str (count : N) : str :=
+    if count <=? 3 then []
+    else M_prev1 ++ dec (count - 3) ++ M_prev2 ++ (if 1 <? count - 3 then [115] else []) ++ [93] ++ M_nl.
+
+  (* key = (module_path, lineno, func_name) *)
+  Definition cp_same (a b : callpoint) : bool :=
+    str_eqb (cp_path a) (cp_path b) && (cp_lineno a =? cp_lineno b) && str_eqb (cp_func a) (cp_func b).
+
+  (* the loop of TracebackInfo.get_formatted: last_key (None before the first entry), count *)
+  Fixpoint tbi_fold (last : option callpoint) (count : N) (cs : list callpoint) : str :=
+    match cs with
+    | [] => repeated_str count
+    | c :: r =>
+        if match last with Some l => cp_same l c | None => false end
+        then (if count + 1 <=? 3 then tb_frame_str c else []) ++ tbi_fold last (count + 1) r
+        else repeated_str count ++ tb_frame_str c ++ tbi_fold (Some c) 1 r
+    end.
+
   (* TracebackInfo.get_formatted *)
   Definition tbi_formatted (cs : list callpoint) : str :=
-    M_header ++ M_nl ++ flat_map tb_frame_str cs.
+    M_header ++ M_nl ++ tbi_fold None 0 cs.
 
   Definition M_plain_mods : list str :=
     [ [95;95;109;97;105;110;95;95];                              (* __main__ *)
